@@ -8,6 +8,10 @@ every malformed octet string of the fault families below, the call must return o
 any other exception class, or a call that does not return within its budget, is a violation.  Strict prefixes of valid
 self-delimiting units must be refused.
 
+Signatures: C10.escape/<defect site>/<exception class> (the site is the innermost library function on the traceback, so a
+defect reached through PduFactory, a holder or a containing PDU is reported once; the entry point called is in the
+case), C10.prefix/<entry point>/accepted[/unit=<kind>], C10.hang/<entry point>/no-return-within-2s.
+
 Fault families (each enumerated completely, simplest first):
   small     every octet string of length <= 2 (thorough: <= 3 for the entry points whose first octets steer control flow)
   valid     the unfaulted reference-encoded unit (control)
@@ -22,6 +26,7 @@ Fault families (each enumerated completely, simplest first):
 
 from __future__ import annotations
 
+import resource
 import signal
 
 from mc import domains as D
@@ -49,13 +54,14 @@ ASSUMPTIONS = [
     "the valid corpus units are reference-encoded (ref/*.py, bound to the repository's byte vectors by the selftests); the oracle is relative: an exception class, or acceptance of a strict prefix",
     "documented classes: ValueError and subclasses, InvalidTcCrc16, InvalidTmCrc16, InvalidCrc, UnsupportedCfdpVersion, TlvTypeMissmatch, InvalidVerifParams, the seven Uslp* classes",
     "prefix clause: units with a length field or a fixed size (unit.self_delimiting, and CFDP PDUs whose header carries the data field length), decoded with the configuration that matches the unit; truncated USLP frames, the TFDF, the TM secondary header and FailureNotice are not self-delimiting",
-    "a call is taken to hang when it does not return within 2 s twice in a row (calls take microseconds)",
+    "a call is taken to hang when, twice in a row, it does not return within 2 s or allocates more than 1 GiB (calls take microseconds); batches of 4000 calls share one 10 s timer and are re-run call by call when it expires",
     "ReservedCfdpMessage.get_* parsers are out of scope (DESIGN.md C10; C18 states what they owe)",
 ]
 
 CALL_BUDGET_S = 2.0
-BATCH_BUDGET_S = 60.0
-BATCH = 20000
+BATCH_BUDGET_S = 10.0  # 4000 calls take 0.05 - 0.3 s; an expired batch is only re-run call by call, never reported
+BATCH = 4000
+MEMORY_HEADROOM = 1 << 30
 SUBST_REGION = 40
 ST_REGION, ST_UNITS, ST_MAXLEN = 24, 3, 64
 
@@ -79,12 +85,33 @@ def documented():
 
 
 class Dog(Watchdog):
-    """mc.rec.Watchdog with a repeating timer: a Hang swallowed by an `except Exception` inside a loop is raised again"""
+    """mc.rec.Watchdog with a repeating timer (a Hang swallowed by an `except Exception` inside a loop is raised again)
+    and an address-space ceiling while it is armed (a loop that allocates must not take the machine down: MemoryError
+    inside the call is treated like an expired budget)"""
 
     def __enter__(self):
+        self._lim = resource.getrlimit(resource.RLIMIT_AS)
+        try:
+            with open("/proc/self/statm") as fh:
+                vsz = int(fh.read().split()[0]) * resource.getpagesize()
+            soft = vsz + MEMORY_HEADROOM
+            if self._lim[1] != resource.RLIM_INFINITY:
+                soft = min(soft, self._lim[1])
+            resource.setrlimit(resource.RLIMIT_AS, (soft, self._lim[1]))
+        except (OSError, ValueError):
+            pass
         self._old = signal.signal(signal.SIGALRM, self._handler)
         signal.setitimer(signal.ITIMER_REAL, self.seconds, 0.25)
         return self
+
+    def __exit__(self, *exc):
+        signal.setitimer(signal.ITIMER_REAL, 0)
+        signal.signal(signal.SIGALRM, self._old)
+        try:
+            resource.setrlimit(resource.RLIMIT_AS, self._lim)
+        except (OSError, ValueError):
+            pass
+        return False
 
 
 # ------------------------------------------------------------------------------------------------------- shards
@@ -159,6 +186,10 @@ def site_of(exc):
     return getattr(code, "co_qualname", code.co_name) if code is not None else "?"
 
 
+def exc_name(cls):
+    return cls.__name__ if cls.__module__ == "builtins" else f"{cls.__module__}.{cls.__name__}"
+
+
 def accepted(result):
     """did the call hand back a decoded object?  (PduFactory.from_raw answers None for an unknown directive code)"""
     if type(result).__name__ == "PduHolder":
@@ -174,6 +205,8 @@ def attempt(f, b, doc):
         return type(e), None, None
     except Hang:
         raise
+    except MemoryError:
+        raise Hang()
     except Exception as e:  # noqa: BLE001 - the whole point
         return type(e), e, None
     return None, None, r
@@ -202,10 +235,13 @@ def make_case(e, recipe, buf, fd, idx=None):
 def judge(rec, e, recipe, buf, fd, cls, exc, result, idx=None):
     """the oracle for one executed call; returns the outcome label"""
     if exc is not None:
-        rec.violation(f"C10.escape/{e.name}/{cls.__name__}/at={site_of(exc)}", make_case(e, recipe, buf, fd, idx), repr(exc)[:300],
+        # one signature per defect site: the innermost library function on the traceback, whatever public entry point the
+        # octets came in through (the entry point is in the case and in `observed`)
+        rec.violation(f"C10.escape/{site_of(exc)}/{exc_name(cls)}", make_case(e, recipe, buf, fd, idx), f"{e.name}: {repr(exc)[:300]}",
                       "returns, or raises a documented class (ValueError family, CRC errors, UnsupportedCfdpVersion, TlvTypeMissmatch, InvalidVerifParams, Uslp*)",
                       repro=T.repro_source(e, recipe, buf))
-        return "UNDOCUMENTED:" + cls.__name__
+        rec.count(f"escape_route[{site_of(exc)} <- {e.name}]")
+        return "UNDOCUMENTED:" + exc_name(cls)
     if cls is not None:
         if fd[0] == "truncate" and e.prefix:
             rec.count("prefixes_refused")
@@ -222,7 +258,8 @@ def judge(rec, e, recipe, buf, fd, cls, exc, result, idx=None):
 
 
 def hang_violation(rec, e, recipe, buf, fd, idx=None):
-    rec.violation(f"C10.hang/{e.name}/no-return-within-{CALL_BUDGET_S:g}s", make_case(e, recipe, buf, fd, idx), "call interrupted by the watchdog (twice)",
+    rec.violation(f"C10.hang/{e.name}/no-return-within-{CALL_BUDGET_S:g}s", make_case(e, recipe, buf, fd, idx),
+                  f"call interrupted by the watchdog twice ({CALL_BUDGET_S:g} s or {MEMORY_HEADROOM >> 20} MiB of new memory)",
                   "returns or raises", repro=T.repro_source(e, recipe, buf))
 
 
@@ -415,5 +452,6 @@ def finalize(tier, agg):
         "distinct_entry_point_outcome_pairs": len(pairs),
         "entry_point_outcome_pairs": pairs[:400],
         "watchdog_batches_bisected": c.get("batches_bisected", 0),
+        "escape_routes": {k[13:-1]: v for k, v in sorted(c.items()) if k.startswith("escape_route[")},
         "bounds_completed": BOUNDS[tier],
     }
